@@ -133,7 +133,12 @@ def run(ctx):
                  "not (s1 in ('a', 'b')) and length(s2) gt 1", "dt1 eq 2020-02-29T23:59:59.5Z", "d1 ge 0001-01-01 and d1 le 9999-12-31",
                  # built-ins called with NAMED parameters (a backend may accept or refuse them; it must not take them out of the tree)
                  "contains(field=s1, substr='a')", "length(arg=s1) eq 1", "substring(fullstr=s1, index=1) eq 'x'", "concat(a=s1, b=s2) eq 'ab' and tolower(x=s1) eq 'a'",
-                 "f.g(x=s1, y=1)", "i1 in (1, 2, 1) and round(number=f1) eq 1"]
+                 "f.g(x=s1, y=1)", "i1 in (1, 2, 1) and round(number=f1) eq 1",
+                 # a call NESTED in the same call (left, right, three deep), chains of one operator: a translation that flattens them must not do it in the caller's lists
+                 "concat(concat(s1, ' '), s2) eq 'a b'", "concat(s1, concat(s2, 'x')) eq 'y'", "concat(concat(concat(s1, 'a'), 'b'), s2) eq 'z'", "tolower(tolower(s1)) eq 'a'",
+                 "contains(concat(concat(s1, s2), s1), 'a')", "indexof(concat(concat(s1, 'a'), 'b'), 'b') eq 1", "substring(substring(s1, 1), 1) eq 'x'",
+                 "length(concat(concat(s1, s2), 'z')) gt 2", "i1 add i2 add 3 eq 1", "(i1 add i2) add (i1 add 3) gt 0", "s1 in ('a', 'b') or s1 in ('c', 'd') or s1 in ('e',)",
+                 "i1 eq 1 and i2 eq 2 and i1 eq 3 and i2 eq 4", "concat(concat(s1, s2), concat(s2, s1)) eq concat(concat(s1, s2), s1)", "trim(trim(concat(trim(s1), trim(s2)))) eq 'x'"]
     for f in gens.VALID_FILTERS + T_FILTERS:
         try:
             nodes.append(impl.real_parse_ast(f))
